@@ -31,8 +31,8 @@ func c05(r *ev.Reporter, _ []string) {
 	for _, rs := range cluster.RulesNames {
 		if r.Quick() {
 			runs = append(runs,
-				run{cluster.Config{N: 4, Rules: rs, Horizon: 3, Timeouts: 4, Drops: true, Cache: 100}, 1, 250, 25 * time.Second},
-				run{cluster.Config{N: 4, Rules: rs, Horizon: 3, Timeouts: 4, Drops: true, Twin: 3, Cache: 100}, 1, 150, 20 * time.Second},
+				run{cluster.Config{N: 4, Rules: rs, Horizon: 3, Timeouts: 4, Drops: true, Cache: 100}, 1, 700, 45 * time.Second},
+				run{cluster.Config{N: 4, Rules: rs, Horizon: 3, Timeouts: 4, Drops: true, Twin: 3, Cache: 100}, 1, 300, 25 * time.Second},
 			)
 		} else {
 			runs = append(runs,
